@@ -1,14 +1,14 @@
 """Generators of small PDDL domains / formulas / effects / states over a fixed vocabulary (bounded harnesses).
 
 Vocabulary: types  b - a, a - object (so `b` objects are also `a` objects and `object`s);
-predicates (p ?x - a) (q ?x - a) (r ?x - a ?y - a) (g) (s ?x - b); functions (f ?x - a) (c); constant k - a (optional);
+predicates (p ?x - a) (q ?x - a) (r ?x - a ?y - a) (g) (s ?x - b); functions (f ?x - a) (c) (d ?x - a ?y - a); constant k - a (optional);
 objects o1 - a, o2 - b.
 """
 import itertools
 
 TYPES_DECL = {"a": "object", "b": "a"}
 PREDS = {"p": [("?x", "a")], "q": [("?x", "a")], "r": [("?x", "a"), ("?y", "a")], "g": [], "s": [("?x", "b")]}
-FUNCS = {"f": [("?x", "a")], "c": []}
+FUNCS = {"f": [("?x", "a")], "c": [], "d": [("?x", "a"), ("?y", "a")]}
 OBJECTS = {"o1": "a", "o2": "b"}
 CONSTS = {"k": "a"}
 
@@ -17,7 +17,7 @@ HEADER = """(define (domain gen)
 (:types b - a a - object)
 {consts}
 (:predicates (p ?x - a) (q ?x - a) (r ?x - a ?y - a) (g) (s ?x - b))
-(:functions (f ?x - a) (c))
+(:functions (f ?x - a) (c) (d ?x - a ?y - a))
 """
 
 
@@ -31,7 +31,7 @@ def domain_text(actions, with_const=False):
 
 # ---- formulas (as text) over parameters ?x ?y (type a) -------------------------------------------
 ATOMS = ["(p ?x)", "(q ?y)", "(r ?x ?y)", "(g)", "(not (p ?x))", "(not (r ?y ?x))", "(= ?x ?y)", "(not (= ?x ?y))",
-         "(>= (f ?x) 1)", "(< (c) (f ?y))", "(= (c) 2)", "(<= (+ (f ?x) (c)) 2)"]
+         "(>= (f ?x) 1)", "(< (c) (f ?y))", "(= (c) 2)", "(<= (+ (f ?x) (c)) 2)", "(>= (d ?x ?y) 1)"]
 CONST_ATOMS = ["(p k)", "(not (r ?x k))", "(> (f k) 0)"]
 QATOMS = ["(p ?z)", "(not (q ?z))", "(r ?x ?z)", "(>= (f ?z) 1)", "(not (= ?z ?x))"]
 
@@ -72,7 +72,7 @@ def const_formulas():
 
 # ---- effects (as text) -----------------------------------------------------------------------------
 SIMPLE_EFFS = ["(p ?x)", "(not (q ?y))", "(r ?x ?y)", "(not (r ?x ?y))", "(g)", "(not (g))", "(increase (c) 1)",
-               "(decrease (f ?x) (c))", "(assign (f ?y) (+ (c) (f ?x)))", "(assign (c) (* (f ?x) 2))"]
+               "(decrease (f ?x) (c))", "(assign (f ?y) (+ (c) (f ?x)))", "(assign (c) (* (f ?x) 2))", "(increase (d ?x ?y) 1)"]
 CONDS = ["(and (p ?x))", "(and (not (q ?y)))", "(and (= ?x ?y))", "(and (>= (c) 1))", "(and (or (g) (q ?x)))", "(p ?y)", "(and (p ?x) (not (g)))"]
 Q_EFFS = ["(forall (?z - a) (when (and (p ?z)) (q ?z)))", "(forall (?z - b) (when (and (not (q ?z))) (and (p ?z) (increase (c) 1))))",
           "(forall (?z - object) (when (and (r ?x ?z)) (not (r ?x ?z))))", "(forall (?z - a) (when (and (>= (f ?z) 1)) (assign (f ?z) 0)))",
